@@ -7,6 +7,24 @@ HERE = pathlib.Path(__file__).resolve().parent
 BASE = "cd /repo && /venv/bin/python -m pytest -ra -q -p no:cacheprovider --timeout=900 --continue-on-collection-errors"
 
 META = {
+    "C13": dict(
+        technique="path rule over unmarshaller terms: subject of the earliest identity guard vs lossy text decoder, restricted to table rows whose acceptance set (abstract predicate evaluation) has a text-like member",
+        text="Partial: for families with text-like members (StrEnum) the identity check runs on the raw input before serdes.load; serdes.load is the identity off text; classes with their own iteration strategy are never content-peeked. Returning an equal reconstruction instead of the same object is accepted. Equality for adversarial strings and idempotence on values are not decided.",
+        note="Text-like members are searched in the stdlib catalogue only.",
+        ref="DESIGN.md §4 C13",
+    ),
+    "C14": dict(
+        technique="carrier-table cross-check + sink/source dataflow over unmarshaller paths (decode/load before every text-consuming sink) + call-site hashability rule for memoised decoders + path-order rule for strload",
+        text="Partial: istexttype and decode agree on the carriers; every unmarshaller feeds its text-consuming sinks from decode()/load() unless a guard proves the input non-text; composite routines load text; memoised decoders only receive hashable carriers; strload tries JSON, literal_eval(decoded), decoded text in that order with covering suppress sets; one encoding everywhere. Equality of results across carriers on values is not decided.",
+        note="Trusts the oracle's hashability table and json/ast decoders' documented error classes.",
+        ref="DESIGN.md §4 C14",
+    ),
+    "C18": dict(
+        technique="typestate rule for consumed iterators + guard-set agreement between sibling functions + comprehension filter rule over resolved terms",
+        text="Partial: no unguarded next/peek on possibly empty iterators; after peekable() only the wrapper is handed on; classes with their own strategy are excluded before the content peek; every attribute-name source is filtered by the public-name test; itervalues projects the same strategy in the order mapping/namedtuple/iterable/fields; arguments are never mutated. Exact pairs for every x (ClassVar fields, custom Mappings) are not decided.",
+        note="Trusts more_itertools.peekable and operator.methodcaller semantics.",
+        ref="DESIGN.md §4 C18",
+    ),
     "C01": dict(
         technique="abstract evaluation of dispatch predicates on a stdlib class catalogue (table reachability/precedence) + term classification of marshal wire forms vs unmarshal reader forms + path rules for temporal reconstruction",
         text="Partial: decides the structural necessary conditions of the round trip — every _HANDLERS row reachable and ordered specific-first in both directions, each scalar family's marshal wire form and unmarshal reader form an inverse pair, temporal reconstructions copy every constructor field, tzinfo re-attached after .time(), duration writer covers weeks. Value-level equality through str()/isoformat()/pendulum is not decided.",
